@@ -294,6 +294,26 @@ theorem pool_unlocked_is_false :
     (run ⟨false⟩ (init planP) (List.replicate 12 0 ++ [1, 1, 1, 1, 0])).map
       (fun s => ((s.th 0).raised, (s.th 1).held)) = some (true, some 0) := by decide
 
+/-- **Per-session state is private**: if every pooled session carries its own mutable resource
+    (`res` injective — the transport adapter whose retry policy `S3ChunkStore.request()` sets before
+    sending; the harness checks this of the sessions the real store makes), then no two threads ever
+    hold sessions with the same resource, so what a thread wrote to its borrowed session is what its
+    own request uses -/
+theorem pool_session_state_private {c : Cfg} (hl : c.locked = true) {n : Nat} {plan : Tid → List Bool}
+    {s : State} (h : Reach c n plan s) (res : Nat → Nat) (hinj : ∀ i j, res i = res j → i = j) :
+    ∀ t u i j, (s.th t).held = some i → (s.th u).held = some j → res i = res j → t = u := by
+  intro t u i j hi hj hr
+  have := hinj i j hr
+  subst this
+  exact (pool_exclusive hl h).1 t u i hi hj
+
+/-- with one resource shared by all sessions the conclusion fails: in the reachable state of the
+    non-vacuity example above two different threads hold sessions with the same resource -/
+theorem pool_shared_resource_is_false :
+    (run ⟨true⟩ (init planP) (List.replicate 15 0 ++ List.replicate 6 1)).map
+      (fun s => ((s.th 0).held.map (fun _ => 0), (s.th 1).held.map (fun _ => 0))) = some (some 0, some 0) := by
+  decide
+
 end pool
 
 /-! ## (iv) multi-threaded load -/
